@@ -370,11 +370,39 @@ Definition snap (fuel : nat) (dh : heap) (p : priv) : snapshot :=
       (filter (fun kc => negb (hidden (fst kc))) (ctx p)).
 
 (* ---------------------------------------------------------------- operations *)
+(* TRANSFER POINTS: the places in pypyr's source at which a shared, cached object (pipeline
+   definition, config.vars, config.shortcuts) is handed towards a run's context, and the copy
+   DISCIPLINE applied there.  tools/py2coq_c12.py regenerates the table point -> discipline
+   from the current source (Gen/GenC12.v); [model_discipline] is what this model assumes;
+   Proofs/GenC12Proofs.v proves them equal. *)
+Inductive tpoint :=
+| TPIn                   (* Step.set_step_input_context: in -> context.update *)
+| TPConfigVars           (* pypyr.steps.configvars: config.vars -> context.update *)
+| TPShortcutArgs         (* Pipeline.new_pipe_and_args: shortcut args -> dict_in *)
+| TPShortcutParserArgs   (* Pipeline.new_pipe_and_args: shortcut parser_args -> context_args *)
+| TPOnError              (* Step.save_error: onError -> runErrors[n]['customError'] *)
+| TPForeach              (* Step.foreach_loop: foreach items -> context['i'] *)
+| TPPypeArgs             (* pypyr.steps.pype get_arguments: pype.args -> child / parent context *)
+| TPFormat.              (* Context.get_formatted_value -> RecursiveFormatter.vformat ->
+                            _get_formatted_iterable: a container literal of the definition *)
+Inductive discipline :=
+| ByRef                  (* the shared object itself *)
+| FreshList              (* list(x) / x + y: a new list, the elements by reference *)
+| DeepCopy               (* copy.deepcopy *)
+| Rebuilt.               (* formatting: every container rebuilt *)
+
+Definition model_discipline (tp : tpoint) : discipline :=
+  match tp with
+  | TPIn | TPConfigVars | TPShortcutArgs => DeepCopy
+  | TPShortcutParserArgs => FreshList
+  | TPOnError | TPForeach | TPPypeArgs | TPFormat => Rebuilt
+  end.
+
 (* a python subscript: x[-1] or x['s'] *)
 Inductive sel := SLast | SKey (s : string).
 
 Inductive op :=
-| InjectIn (k : string) (c : cell)
+| InjectIn (tp : tpoint) (k : string) (c : cell)
 | Unset (k : string)
 | SetFmt (k : string) (t : tree)
 | CopyRef (k k' : string)
@@ -451,7 +479,7 @@ Fixpoint walk (dh h : heap) (c : cell) (path : list sel) : cell + string :=
 Definition step_aliasing (dh : heap) (p : priv) (o : op) : heap * priv :=
   if negb (running p) then (dh, p) else
   match o with
-  | InjectIn k c => (dh, set_ctx (aset k c (ctx p)) p)
+  | InjectIn _ k c => (dh, set_ctx (aset k c (ctx p)) p)
   | Unset k => (dh, set_ctx (adel k (ctx p)) p)
   | SetFmt k t => fmt_set FUEL LCtx k t dh p
   | CopyRef k k' =>
@@ -544,19 +572,43 @@ Definition step_aliasing (dh : heap) (p : priv) (o : op) : heap * priv :=
     end
   end.
 
-(* THE MODEL: Step.set_step_input_context and pypyr.steps.configvars do
-   context.update(copy.deepcopy(...)) — the context receives a private copy of the definition's
-   value; every other operation is as in [step_aliasing]. *)
-Definition step (dh : heap) (p : priv) (o : op) : heap * priv :=
-  match o with
-  | InjectIn k c =>
-    if negb (running p) then (dh, p) else
-    match copy FUEL dh (ph p) [] c with
+(* what the context receives from the shared cell [c] under discipline [d] *)
+Definition scalar_cell (c : cell) : bool := match c with CInt _ => true | CPtr _ => false end.
+
+Definition inject (fuel : nat) (d : discipline) (dh : heap) (p : priv) (k : string) (c : cell) : heap * priv :=
+  match d with
+  | ByRef => (dh, set_ctx (aset k c (ctx p)) p)
+  | DeepCopy | Rebuilt =>
+    match copy fuel dh (ph p) [] c with
     | Some (h, _, c') => (dh, set_ctx (aset k c' (ctx p)) (set_ph h p))
     | None => (dh, unsup p)
     end
+  | FreshList =>
+    (* list(parser_args): a new list object; its elements (strings, by contract of a
+       command line) are immutable - anything else is outside the model *)
+    match c with
+    | CPtr i =>
+      match hget dh (ph p) i with
+      | Some (OList l) =>
+        if forallb scalar_cell l
+        then let '(p1, c') := alloc (OList l) p in (dh, set_ctx (aset k c' (ctx p1)) p1)
+        else (dh, unsup p)
+      | _ => (dh, unsup p)
+      end
+    | CInt _ => (dh, unsup p)
+    end
+  end.
+
+(* the machine for a given table transfer point -> discipline *)
+Definition step_of (tbl : tpoint -> discipline) (dh : heap) (p : priv) (o : op) : heap * priv :=
+  match o with
+  | InjectIn tp k c => if negb (running p) then (dh, p) else inject FUEL (tbl tp) dh p k c
   | _ => step_aliasing dh p o
   end.
+
+(* THE MODEL: the machine with the disciplines of the current code - `in` and config.vars are
+   deep-copied (commit d9572b0), a shortcut's parser_args are copied into a new list (fd90231). *)
+Definition step : heap -> priv -> op -> heap * priv := step_of model_discipline.
 
 Fixpoint run (dh : heap) (p : priv) (ops : list op) : heap * priv :=
   match ops with
@@ -753,7 +805,7 @@ Fixpoint fold_taint {A} (f : list string -> A -> option (list string)) (T : list
 
 Definition check_op (T : list string) (o : op) : option (list string) :=
   match o with
-  | InjectIn k _ => Some (taint k T)
+  | InjectIn _ k _ => Some (taint k T)
   | Unset k => Some (untaint k T)
   | SetFmt k t => bind_taint T k t
   | CopyRef k k' | BindElem k k' _ => Some (if tainted T k' then taint k T else untaint k T)
